@@ -55,7 +55,7 @@
 From Coq Require Import List Arith ZArith NArith Bool Lia.
 Import ListNotations.
 Require Import MayV.Rt.SchedModel MayV.Rt.SchedLoopModel.
-Open Scope Z_scope.
+Local Open Scope Z_scope.
 
 Definition code_params (t : N) : params :=
   {| push_first := true; work_steal := true; cfg_tmo := t; budgeted := true; budget := 256%nat; interval := 64%nat |}.
